@@ -352,6 +352,9 @@ def _stage_execution(I, obj):
             return rec.fields["_execution"]
         v = new_symbolic(I, "Workflow", f"{rec.meta.get('name', 'stage')}.execution")
         rec.fields["_execution"] = v
+        if rec.meta.get("loaded"):
+            # the execution row comes with the loaded stage: remember its durable status (ghost) for the legal-write check
+            I.st.objs[v.oid].meta["loaded"] = {"kind": "execution", "how": "stage.execution", "status": I.getattr(v, "status")}
         return v
     return I.elem_field(obj, "_execution", ("obj", "Workflow"))
 
